@@ -59,6 +59,49 @@ def evaluator(p, res, meta):
     return None
 
 
+def deferred_retry_program(rng, front, fam, defect):
+    """a batch with a definition-time defect (recorded in the error slot and reported by the next commit), the failing commit, and then
+    ANOTHER commit / finalize of the same batch: the batch still contains the defect, so by the property's `exactly when` it must fail again"""
+    g = asmgen.Gen(rng, front, fam, max_ops=8, base=0)
+    g.header()
+    lines = g.lines
+    lines.append("nd")
+    g.ndyn = 1
+    g.emit(g.code())
+    if defect == "back-undefined":
+        g.ref_line("rb", 6, g.pick_shape(data_ok=False), toff=0)
+    elif defect == "dup-global":
+        lines += ["gl 9"]
+        g.emit(g.code())
+        lines += ["gl 9"]
+    elif defect == "dup-dyn":
+        lines += ["dl 0"]
+        g.emit(g.code())
+        lines += ["dl 0"]
+    else:           # definition of a dynamic label that was never allocated
+        lines += ["dl 7"]
+    g.emit(g.code())
+    lines.append("c")
+    if rng.chance(1, 2):
+        g.emit(g.code())
+    lines.append("c" if front == "asm" and rng.chance(1, 2) else "fin")
+    return lines
+
+
+def deferred_retry_evaluator(p, res, meta):
+    fails = [i for i, (req, a, _) in enumerate(res) if req in ("c", "fin") and a.startswith("err")]
+    if not fails:
+        return ({"kind": "defective-batch-accepted", "front": meta["front"], "defect": meta["defect"]}, f"no commit of a batch with defect `{meta['defect']}` failed")
+    first = fails[0]
+    later = [(req, a) for (req, a, _) in res[first + 1:] if req in ("c", "fin")]
+    for req, a in later:
+        if a.startswith("ok"):
+            return ({"kind": "deferred-defect-forgotten", "front": meta["front"], "defect": meta["defect"]},
+                    f"`{res[first][0]}` failed with `{res[first][1][:40]}`; the batch is unchanged in that respect, yet the following `{req}` returned `{a[:40]}`"
+                    + (" and handed out the code" if req == "fin" else " and made the code executable"))
+    return None
+
+
 def check(run):
     rng = SplitMix(run.seed)
     thorough = run.tier == "thorough"
@@ -112,7 +155,18 @@ def check(run):
         n_ses += 1
         classes["session:" + mode] = classes.get("session:" + mode, 0) + 1
     stats = asmprops.process(run, progs, evaluator, metas, chunk=250)
-    run.coverage["evaluations"] = len(progs)
+    # a definition-time defect is reported by ONE commit; what does the next commit of the same batch do? (own batch: recorded findings
+    # must not use up the report limit of the main batch)
+    dprogs, dmetas = [], []
+    for _ in range(400 if thorough else 80):
+        front, fam = rng.choice(["vec", "asm"]), rng.choice(["x64", "x86", "a64", "rv"])
+        defect = rng.choice(["back-undefined", "dup-global", "dup-dyn", "undefined-dyn-def"])
+        dprogs.append(deferred_retry_program(rng, front, fam, defect))
+        dmetas.append({"front": front, "defect": defect})
+    dstats = asmprops.process(run, dprogs, deferred_retry_evaluator, dmetas, chunk=100, limit=16, label="deferred-defect retry")
+    stats["deferred_defect_retries"] = dstats
+    stats["requests"] += dstats["requests"]
+    run.coverage["evaluations"] = len(progs) + len(dprogs)
     run.coverage["distinct_nontrivial"] = stats.get("with_error", 0)
     run.coverage["traces_validated_against_impl"] = stats["requests"]
     run.coverage["distribution"] = dict(stats, injected=classes)
